@@ -20,24 +20,28 @@ thread_local! {
 pub struct Gen {
     v: u32,
     generation: u32,
+    /// how often `clone` was called on this very value (interior mutability: a clone taken from a bitwise duplicate of the
+    /// element leaves the element's own counter untouched)
+    cloned: std::cell::Cell<u32>,
 }
 impl Clone for Gen {
     fn clone(&self) -> Gen {
         CLONE_LOG.with(|l| l.borrow_mut().push(self.v));
-        Gen { v: self.v, generation: self.generation + 1 }
+        self.cloned.set(self.cloned.get() + 1);
+        Gen { v: self.v, generation: self.generation + 1, cloned: std::cell::Cell::new(0) }
     }
 }
 impl Default for Gen {
     fn default() -> Gen {
         CLONE_LOG.with(|l| l.borrow_mut().push(u32::MAX));
-        Gen { v: 0, generation: 100 }
+        Gen { v: 0, generation: 100, cloned: std::cell::Cell::new(0) }
     }
 }
 impl Elem for Gen {
     const KIND: &'static str = "gen_no_drop_glue";
     const NEEDS_DROP: bool = false;
     fn mk(v: u32) -> Self {
-        Gen { v, generation: 0 }
+        Gen { v, generation: 0, cloned: std::cell::Cell::new(0) }
     }
     fn get(&self) -> u32 {
         self.v
@@ -325,6 +329,9 @@ fn exec_typed<T: Elem + Peek + Clone + Default + 'static, N: ArrayLength>(case: 
             let c: Vec<(u32, Option<u32>)> = match f {
                 0 => {
                     let c = a.clone();
+                    if let Some(bad) = a.iter().position(|x| (x as &dyn std::any::Any).downcast_ref::<Gen>().map(|g| g.cloned.get() != 1).unwrap_or(false)) {
+                        return Err(format!("{what}: T::clone was not called on the array's own element #{bad} (its per-value clone counter is not 1)"));
+                    }
                     c.iter().map(|x| (x.get(), ident(x))).collect()
                 }
                 // clone_from into an existing array (2 stack, 3 boxed): the destination ends up as the element-wise clone
